@@ -16,7 +16,9 @@ IFACES = [b"a.b", b"a.b.c", b"org.x", b"a"]
 MEMBERS = [b"M", b"Changed", b"a.b", b""]
 PATHS = [b"/", b"/a", b"/a/b", b"/a/b/c", b"/ab", b"/a/", b""]
 NAMES = [b"a.b", b":1.5", b"org.freedesktop.DBus", b":", b"a", b"a..b"]
-ARGV = [b"", b"x", b"a.b", b"a.b.c", b"a.bc", b"/", b"/a", b"/a/", b"/a/b", b"/ab", b"a,b", b"it's", b"a\\b", b"sp ace"]
+ARGV = [b"", b"x", b"a.b", b"a.b.c", b"a.bc", b"/", b"/a", b"/a/", b"/a/b", b"/ab", b"a,b", b"it's", b"a\\b", b"sp ace",
+        # runs of backslashes, a trailing one, one in front of an apostrophe: outside apostrophes only \' is an escape, every other backslash stands for itself
+        b"a\\\\b", b"\\\\", b"\\\\\\", b"x\\", b"\\'q", b"a\\,b"]
 
 
 def quote(v, rng):
